@@ -49,6 +49,12 @@ def _writePotential(potential, cutoff, gridPoints, meshResolution, out ):
   if gridPoints%4 != 0:
     raise WritePotentialException("The number of rows in a DL_POLY TABLE file needs to be divisible by 4. Number of rows specified = {} ".format(gridPoints))
 
+  # The block header holds the two species labels in fixed fields of 8 characters ('%8s' pads but never cuts):
+  # a longer label would push the second label out of its field
+  for label in (potential.speciesA, potential.speciesB):
+    if len(u"{}".format(label)) > 8:
+      raise WritePotentialException("Species labels in a DL_POLY TABLE file are limited to 8 characters: '{}'".format(label))
+
   outputbuilder = StringIO()
 
   #Generate output
